@@ -21,14 +21,16 @@ LEVEL_TEXT = ('every generated tree (programmatic shapes, with / without parenth
 LEVEL_NOTE = ('trusted: gfortran 12 / gcc 12 -O0 as target semantics (default -std=gnu, so `a*-b` is judged by value); '
               'the evaluator is re-validated against gfortran/gcc on every tree; reals compared within a propagated '
               'error bound; bounded depth (<= 5) and small operand values')
-RULE = ('E3 TreeGen trees of depth 2-5 over int/real(4,8)/logical scalars, array elements and derived-type components: '
-        'Sum/Product (n-ary, with -1 factors)/Quotient/Power/unary minus/negative literals/Comparison/LogicalAnd/Or/Not/'
-        'intrinsic calls/Cast, parenthesis nodes none|random|frontend-like; 20 % of trees come out of '
-        'SubstituteExpressionsMapper or simplify(). 30 % of the cases target cgen. Shapes with known open findings are '
-        'only generated in the hostile slice (25 % of cases). Non-trivial = >= 12 trees of the case had >= 3 defined '
-        'valuations, were printed, compiled and compared; distinct = hash of all printed texts.')
-CASES = {'quick': 128, 'thorough': 1600}
-MIN_NONTRIVIAL = {'quick': 90, 'thorough': 1100}
+RULE = ('(1) deterministic enumeration slice (first 28 / 72 case indices): every edge parent[position] <- child over Sum, '
+        'Product (n-ary, with -1 factors), Quotient, Power, unary minus, negative literals, Comparison, logical operators, '
+        'intrinsic calls and Cast, for int / real (/ mixed in thorough) operands, with (thorough) and without explicit '
+        'parenthesis nodes, for fgen and cgen; (2) E3 TreeGen random trees of depth 2-5 over int/real(4,8)/logical scalars, '
+        'array elements and derived-type components, parenthesis nodes none|random|frontend-like; ~20 % of the trees are '
+        'outputs of SubstituteExpressionsMapper or simplify(); 30 % of the random cases target cgen. Shapes with known open '
+        'findings are only generated in the enumeration and hostile (25 %) slices. Non-trivial = at least half of the trees '
+        'of the case had a defined valuation, were printed, compiled and compared; distinct = hash of all printed texts.')
+CASES = {'quick': 112, 'thorough': 1600}
+MIN_NONTRIVIAL = {'quick': 70, 'thorough': 1100}
 ANCHORS = ['loki/backend/fgen.py', 'loki/expression/mappers.py', 'loki/backend/cgen.py']
 REQUIRED_REACH = ['map_quotient', 'map_product', 'map_sum', 'map_power', 'map_comparison', 'map_logical_not',
                   'map_parenthesised_div', 'map_from_expr_map', 'CCodeMapper.map_power', 'CCodeMapper.map_inline_call']
